@@ -274,7 +274,22 @@ namespace detail
 	{
 		GLM_STATIC_ASSERT(std::numeric_limits<T>::is_integer, "'bitfieldExtract' only accept integer inputs");
 
-		return (Value >> static_cast<T>(Offset)) & static_cast<T>(detail::mask(Bits));
+		typedef typename detail::make_unsigned<T>::type U;
+
+		if(Bits <= 0)
+			return vec<L, T, Q>(static_cast<T>(0));
+
+		// extract on the unsigned representation, with a mask as wide as the element type
+		vec<L, U, Q> Field((vec<L, U, Q>(Value) >> static_cast<U>(Offset)) & detail::mask(static_cast<U>(Bits)));
+
+		// GLSL: for signed types the most significant bits are set to the value of bit Offset + Bits - 1
+		if(std::numeric_limits<T>::is_signed && Bits < static_cast<int>(sizeof(T) * 8))
+		{
+			U const SignBit = static_cast<U>(static_cast<U>(1) << static_cast<U>(Bits - 1));
+			Field = (Field ^ SignBit) - SignBit;
+		}
+
+		return vec<L, T, Q>(Field);
 	}
 
 	// bitfieldInsert
